@@ -50,6 +50,21 @@ fn bits_to_time_exact(baud: crate::Baudrate) {
     kani::cover!(t * rate < exact, "cover: conversion rounds down");
 }
 
+/// The numeric value of every baud rate (the conversion lemmas are per rate; this one ties all
+/// eleven table entries to the reference).
+#[kani::proof]
+fn c01_rate_table() {
+    let b = any_baud();
+    assert!(b.to_rate() == ref_rate(b), "C01/rate: the baud rate's numeric value");
+    // the conversion is the same expression for every rate: spot-check it on small counts
+    let bits: u32 = kani::any();
+    kani::assume(bits <= 64);
+    let t = b.bits_to_time(bits).total_micros();
+    let exact = u64::from(bits) * 1_000_000;
+    assert!(t * ref_rate(b) <= exact && exact < (t + 1) * ref_rate(b), "C01/conversion: a bit count converts to the exact time rounded down, i.e. less than 1 us short");
+    kani::cover!(matches!(b, crate::Baudrate::B45450) && bits == 33, "cover: 33 bit times at 45.45 kbit/s");
+}
+
 macro_rules! per_baud {
     ($name:ident, $f:ident, $b:ident) => {
         #[kani::proof]
